@@ -144,10 +144,17 @@ def register(R):
         }
         return out
 
+    def queued_iteration(l0, l1, evs):
+        # "if any ... user on_queued callback raises, result() raises": an iteration that goes on to the next subscriber has
+        # not swallowed an exception of this one; and each subscriber's callback is invoked exactly once (C08)
+        cbs = [e for e in evs if e.kind == 'ext']
+        return {'a_raising_on_queued_callback_is_not_swallowed': (B(not any(e.extra.get('raised') is not None for e in evs if e.kind in ('ext', 'call'))), ['C03', 'C08']),
+                'each_on_queued_callback_invoked_once': (B(len(cbs) == 1), ['C08'])}
+
     R.contract(
         f'{T}:SubmissionTask._main', props=['C03', 'C04', 'C07', 'C08', 'C17'],
         params=dict(transfer_future=ObjT(f'{F}:TransferFuture')),
-        checks=sub_checks, raises={}, loops={0: trivial_loop()},
+        checks=sub_checks, raises={}, loops={0: LoopSpec(invariant=lambda l: {}, iteration_checks=queued_iteration)},
     )
 
 
